@@ -124,6 +124,7 @@ func atoi(s string) int {
 }
 
 func runC01(c *Ctx) {
+	c01LazyBuffer(c)
 	p := c.P
 	runTableRule(c, "C01.tables", "encodings", "Encoding", 9)
 	runTableRule(c, "C01.tables", "compressionCodecs", "CompressionCodec", 6)
@@ -748,4 +749,73 @@ func runC19(c *Ctx) {
 		}
 	}
 	c.Min(rule, 7)
+}
+
+// c01LazyBuffer: the column buffer of a column writer is created lazily by
+// several entry points (WriteRows, WriteRowValues, the typed Write). Each of
+// them creates it only when there is none: an unconditional creation discards
+// the rows another entry point has buffered (finding F38). Every store of a
+// freshly made column buffer into ColumnWriter.columnBuffer is dominated by
+// the nil edge of a test of that field.
+func c01LazyBuffer(c *Ctx) {
+	rule := "C01.lazybuffer"
+	p := c.P
+	f := p.LookupField("ColumnWriter", "columnBuffer")
+	if !c.Anchor(rule, "ColumnWriter.columnBuffer", f != nil) {
+		return
+	}
+	n := 0
+	for _, fn := range p.ModuleSSAFuncs() {
+		if fn.Origin() != nil || fn.Blocks == nil {
+			continue
+		}
+		nilEdges := nilGuardEdgeTargets(fn, f)
+		k := 0
+		allInstrs(fn, false, func(_ *ssa.Function, ins ssa.Instruction) {
+			st, ok := ins.(*ssa.Store)
+			if !ok {
+				return
+			}
+			fs, root, elem := fieldChain(st.Addr)
+			if len(fs) == 0 || elem || fs[len(fs)-1] != f || isFreshRoot(root) {
+				return
+			}
+			fresh := false
+			for _, o := range Origins(st.Val, OriginOpts{}) {
+				if o.Kind == OrgCall && strings.HasSuffix(calleeName(o.Call), ").newColumnBuffer") {
+					fresh = true
+				}
+			}
+			if !fresh {
+				return
+			}
+			n++
+			guarded := false
+			for _, t := range nilEdges {
+				if t.Dominates(st.Block()) {
+					guarded = true
+				}
+			}
+			key := FuncKey(fn) + ": a column buffer is created only when there is none"
+			if k > 0 {
+				key += " #" + itoa(k)
+			}
+			k++
+			c.Check(rule, key, st.Pos(), guarded, FuncKey(fn)+" installs a new column buffer without testing that the column has none: rows already buffered through another write entry point (WriteRows before the first typed Write) are dropped without error")
+		})
+	}
+	c.Stats[rule+".creations"] = n
+	c.Min(rule, 3)
+}
+
+// nilGuardEdgeTargets: successor blocks entered when a load of field f is nil.
+func nilGuardEdgeTargets(fn *ssa.Function, f *types.Var) []*ssa.BasicBlock {
+	var out []*ssa.BasicBlock
+	for e := range nilGuardEdges(fn, f) {
+		// the edge target must have the test block as its only predecessor to stand for the edge
+		if len(e[1].Preds) == 1 {
+			out = append(out, e[1])
+		}
+	}
+	return out
 }
